@@ -45,10 +45,19 @@ theorem off_bytes (off : Nat) (h : off < 65536) : off % 256 + 256 * (off / 256 %
 /-! ### the device's answers -/
 
 theorem respond_info (d : FruDev) (id : Nat) (c : List Nat) (hid : id < 256)
-    (hg : d.get id = some c) :
+    (hg : d.get id = some c) (h64 : c.length ≤ 65535) :
     respond d (infoReq id).cmd (infoReq id).payload = (d, [0, c.length % 256, c.length / 256 % 256, 0]) := by
   have : id % 256 = id := Nat.mod_eq_of_lt hid
-  simp [respond, infoReq, cmdInfo, respondInfo, this, hg]
+  have hs : infoSize c.length = c.length := by unfold infoSize; split <;> omega
+  simp [respond, infoReq, cmdInfo, respondInfo, this, hg, hs]
+
+/-- a device holding more than the 16-bit size field can say reports FFFFh -/
+theorem respond_info_64k (d : FruDev) (id : Nat) (c : List Nat) (hid : id < 256)
+    (hg : d.get id = some c) (h64 : 65535 ≤ c.length) :
+    respond d (infoReq id).cmd (infoReq id).payload = (d, [0, 255, 255, 0]) := by
+  have : id % 256 = id := Nat.mod_eq_of_lt hid
+  have hs : infoSize c.length = 65535 := by unfold infoSize; split <;> omega
+  simp [respond, infoReq, cmdInfo, respondInfo, this, hg, hs]
 
 theorem respond_read (d : FruDev) (id off cnt : Nat) (c : List Nat) (hid : id < 256)
     (hoff : off < 65536) (hc : cnt < 256) (hc0 : 0 < cnt) (hg : d.get id = some c) :
@@ -189,10 +198,11 @@ theorem readLoop_exact (cfg : Cfg) (hcfg : cfg.ok = true) (d : FruDev) (hd : Dev
       subst this
       simp [hw]
 
-/-- `read_fru_data(offset, count, fru_id)` against a conforming device. -/
-theorem readFruData_exact (cfg : Cfg) (hcfg : cfg.ok = true) (d : FruDev) (hd : DevOk d) (id : Nat)
+/-- `read_fru_data(offset, count, fru_id)` against a conforming device holding up to a FULL 64 KiB (65536 bytes:
+every byte a 16-bit offset can address; the range may end at 10000h). -/
+theorem readFruData_exact64 (cfg : Cfg) (hcfg : cfg.ok = true) (d : FruDev) (hd : DevOk d) (id : Nat)
     (c : List Nat) (hid : id < 256) (hg : d.get id = some c) (off cnt : Nat)
-    (hr : off + cnt ≤ c.length) (h64 : c.length ≤ 65535) (w : World FruDev) (hw : w.dev = d) :
+    (hr : off + cnt ≤ c.length) (h64 : c.length ≤ 65536) (w : World FruDev) (hw : w.dev = d) :
     (readFruData cfg respond w (some off) cnt id).out = .ok ((c.drop off).take cnt) ∧
     (readFruData cfg respond w (some off) cnt id).w.dev = d := by
   have hc := (Cfg.ok_iff cfg).mp hcfg
@@ -200,13 +210,21 @@ theorem readFruData_exact (cfg : Cfg) (hcfg : cfg.ok = true) (d : FruDev) (hd : 
     (cnt + cfg.initReq + 1) w off cfg.initReq [] hw (by omega) hc.2.2.1 hc.2.2.2.1 (by omega)
   simpa [readFruData] using this
 
+/-- `read_fru_data(offset, count, fru_id)` against a conforming device. -/
+theorem readFruData_exact (cfg : Cfg) (hcfg : cfg.ok = true) (d : FruDev) (hd : DevOk d) (id : Nat)
+    (c : List Nat) (hid : id < 256) (hg : d.get id = some c) (off cnt : Nat)
+    (hr : off + cnt ≤ c.length) (h64 : c.length ≤ 65535) (w : World FruDev) (hw : w.dev = d) :
+    (readFruData cfg respond w (some off) cnt id).out = .ok ((c.drop off).take cnt) ∧
+    (readFruData cfg respond w (some off) cnt id).w.dev = d :=
+  readFruData_exact64 cfg hcfg d hd id c hid hg off cnt hr (by omega) w hw
+
 /-- `read_fru_data_full(fru_id)` against a conforming device. -/
 theorem readFruDataFull_exact (cfg : Cfg) (hcfg : cfg.ok = true) (d : FruDev) (hd : DevOk d) (id : Nat)
     (c : List Nat) (hid : id < 256) (hg : d.get id = some c) (h64 : c.length ≤ 65535)
     (w : World FruDev) (hw : w.dev = d) :
     (readFruDataFull cfg respond w id).out = .ok c ∧ (readFruDataFull cfg respond w id).w.dev = d := by
   have hc := (Cfg.ok_iff cfg).mp hcfg
-  have hinfo := respond_info d id c hid hg
+  have hinfo := respond_info d id c hid hg h64
   have hsz : c.length % 256 + 256 * (c.length / 256 % 256) = c.length := off_bytes _ (by omega)
   have := readLoop_exact cfg hcfg d hd id c hid hg c.length (Nat.le_refl _) (by omega)
     (c.length + cfg.initReq + 1)
@@ -246,6 +264,25 @@ theorem chunksAux_len (n : Nat) :
       rcases h with h | h
       · rw [h]; simp; omega
       · exact ih _ ch h
+
+theorem chunksAux_pos (n : Nat) (hn : 1 ≤ n) :
+    ∀ (fuel : Nat) (data : List Nat), ∀ ch ∈ chunksAux n fuel data, 1 ≤ ch.length := by
+  intro fuel
+  induction fuel with
+  | zero => intro data ch h; simp [chunksAux] at h
+  | succ fuel ih =>
+    intro data ch h
+    by_cases e : data = []
+    · simp [chunksAux, e] at h
+    · have hpos : 0 < data.length := List.length_pos_iff.mpr e
+      simp only [chunksAux, e, if_false, List.mem_cons] at h
+      rcases h with h | h
+      · rw [h]; simp; omega
+      · exact ih _ ch h
+
+/-- no chunk is empty (so every Write FRU Data request starts at an offset below the end of the data) -/
+theorem chunks_pos (n : Nat) (hn : 1 ≤ n) (data : List Nat) : ∀ ch ∈ chunks n data, 1 ≤ ch.length :=
+  chunksAux_pos n hn _ _
 
 theorem chunks_flatten (n : Nat) (hn : 1 ≤ n) (data : List Nat) : (chunks n data).flatten = data :=
   chunksAux_flatten n hn _ _ (Nat.le_refl _)
@@ -295,6 +332,36 @@ theorem writeChunks_exact (id : Nat) (hid : id < 256) :
     have hch0 := hch ch (List.mem_cons_self)
     simp only [List.flatten_cons, List.length_append] at hfit
     have hresp := respond_write w.dev id off ch c hid (by omega) hg (by omega) hch0.1 hch0.2
+    unfold writeChunks
+    simp only [xchg, hresp, decodeWrite_ok, ne_eq, not_true_eq_false, if_false]
+    have hg' : FruDev.get { w.dev with frus := update w.dev.frus id (splice c off ch) } id
+        = some (splice c off ch) := lookup_update_eq _ _ _ _ hg
+    have hlen := splice_length c off ch (by omega)
+    have := ih ⟨{ w.dev with frus := update w.dev.frus id (splice c off ch) },
+        w.trace ++ [⟨writeReq id off ch, [0, ch.length]⟩]⟩ (splice c off ch) (off + ch.length) hg'
+      (fun x hx => hch x (List.mem_cons_of_mem _ hx)) (by omega) (by omega)
+    refine ⟨this.1, ?_, ?_⟩
+    · rw [this.2.1, splice_splice c ch cs.flatten off (by omega)]; simp
+    · intro j hj
+      rw [this.2.2 j hj]
+      exact lookup_update_ne _ _ _ _ hj
+
+/-- the write loop against a device holding up to a FULL 64 KiB (the data may end at 10000h) -/
+theorem writeChunks_exact64 (id : Nat) (hid : id < 256) :
+    ∀ (cs : List (List Nat)) (w : World FruDev) (c : List Nat) (off : Nat),
+      w.dev.get id = some c → (∀ ch ∈ cs, ch.length ≤ w.dev.wmax ∧ ch.length < 256 ∧ 1 ≤ ch.length) →
+      off + cs.flatten.length ≤ c.length → c.length ≤ 65536 →
+      (writeChunks respond w id off cs).out = .ok () ∧
+      (writeChunks respond w id off cs).w.dev.get id = some (splice c off cs.flatten) ∧
+      (∀ j, j ≠ id → (writeChunks respond w id off cs).w.dev.get j = w.dev.get j) := by
+  intro cs
+  induction cs with
+  | nil => intro w c off hg _ _ _; simp [writeChunks, splice_nil, hg]
+  | cons ch cs ih =>
+    intro w c off hg hch hfit h64
+    have hch0 := hch ch (List.mem_cons_self)
+    simp only [List.flatten_cons, List.length_append] at hfit
+    have hresp := respond_write w.dev id off ch c hid (by omega) hg (by omega) hch0.1 hch0.2.1
     unfold writeChunks
     simp only [xchg, hresp, decodeWrite_ok, ne_eq, not_true_eq_false, if_false]
     have hg' : FruDev.get { w.dev with frus := update w.dev.frus id (splice c off ch) } id
